@@ -83,6 +83,19 @@ def run(pid: str, tier: str, seed: int, selftest=False, replay=None) -> int:
     for p in sorted(glob.glob(os.path.join(os.path.dirname(os.path.dirname(os.path.abspath(__file__))), "known", "C04", "*.json"))):
         w = json.load(open(p))
         sources.append((f"witness:C04/{os.path.basename(p)}", w["text"], w["argdom"], w["opqdom"], w["accs"], w["overlap"]))
+    # exhaustive small scope: every skeleton TLC enumerates (spec/ProgGen.tla), on two CSR accelerators with different barrier styles
+    from gen_small import render, tlc_programs
+    rg, progs = tlc_programs(pid, 3, 3 if tier == "quick" else 4, 2)
+    rep.add_tlc(rg)
+    small_accs = []
+    for an in ("snax_hwpe_mult", "snax_alu"):
+        op = ctx.get_acc(an).generate_acc_op()
+        small_accs.append((an, [k for k, _ in op.field_items()][:2], [k for k, _ in op.launch_field_items()]))
+    for q, toks in enumerate(progs):
+        an, fl, ln = small_accs[q % 2]
+        text, argdom, opq = render(toks, an, fl, ln)
+        sources.append(("small:" + " ".join(toks) + "|" + an, text, argdom, opq, [an], q % 4 // 2))
+    rep.extra["small_scope_programs"] = len(progs)
     for k in range(n_gen):
         text, argdom, opq, accs = gen_program(seed, k, ctx)
         sources.append((f"gen:{seed}:{k}", text, argdom, opq, accs, k % 2))
